@@ -258,6 +258,18 @@ def lsp_history(ctx, ws, steps):
                 if st["rel"] in last_ok:
                     last_ok.remove(st["rel"])
                 last_ok.append(st["rel"])
+        # two more versions of the last document back to back (a large paste, then back to the text): only the last counts
+        if steps and steps[-1]["valid"] and steps[-1]["rel"] in opened:
+            rel_ = steps[-1]["rel"]
+            f_ = ws.abs(rel_)
+            big = steps[-1]["text"] + "\n\nimport pytest\n" + "".join(
+                f"\n@pytest.fixture\ndef pasted_fx_{i}():\n    return {i}\n" for i in range(3000))
+            with A.batch():
+                A.did_change(f_, big)
+                A.did_change(f_, steps[-1]["text"])
+            A.document_symbol(f_)
+            A.pump(0.5)
+            ctx.count("lsp_bursts")
         B = LSP(srv_bin(), ws.root)
         B.initialize()
         for rel in last_ok:
